@@ -1,8 +1,12 @@
 (* C07 — tables are insertion-ordered maps keyed by value.  Statements only; proofs in
-   Cao.TableProofs.  The hash part of a table is the abstract map licensed by the C12 theorems. *)
+   Cao.TableProofs (the table object of Table.v; the hash part of a table is the abstract map licensed by the
+   C12 theorems) and in Cao.VmTableProofs / VmTableKeys / VmTableInstr / VmTableNatives (the table
+   representation of the VM model Vm.v, the table instructions, reference sharing, preservation of the
+   table invariant by every instruction and native): the C07_vm_* theorems below. *)
 From Coq Require Import Arith NArith ZArith List Bool.
 Import ListNotations.
 From Cao Require Import Table TableProofs.
+From Cao Require Import ListUtil Stacks Vm VmProofs C04VmProofs VmTableProofs VmTableKeys VmTableInstr VmTableNatives.
 
 (* every history of insert / remove / append / pop / get / nth-key / len / iterate / keys on a table
    that starts empty gives exactly the results of the insertion-ordered association list
@@ -40,3 +44,313 @@ Example C07_nonvacuous :
      XIter [(KStr [97%N], Some 1%Z); (KInt 1%Z, Some 2%Z); (KInt 2%Z, Some 3%Z); (KInt 3%Z, Some 5%Z)];
      XOptV (Some (Some 5%Z))].
 Proof. vm_compute. reflexivity. Qed.
+
+
+(* ====================================================================================================== *)
+(* The VM model (Vm.v): [table] = map part [tmap] + key vector [tkeys]; values refer to tables by address.  *)
+(* ====================================================================================================== *)
+
+(* Vocabulary (VmTableProofs.v, VmTableKeys.v):
+     kb eq stored probe   the map part's key test: equal hash (bit-equal reals) and ==, as a boolean
+     eb eq stored key     plain ==, the test of `keys.retain(|k| k != key)` in CaoLangTable::remove
+     twf eq D t           map fst (tmap t) = tkeys t  (the two parts are aligned entry by entry),
+                          every key lies in the key domain D, no key is matched (kb) by a key stored before it
+     tabs t               the entries in the order of the key vector (= tmap t, see C07_vm_table_object: its keys
+                          are tkeys t and iteration yields it)
+     al_get / al_set / al_remove / al_pop   the ordered association list: first match / replace the first
+                          match in place, else append / delete the ==-matching entries / drop the last entry
+     vkey F h k           the key domain of the VM: nil, integers, reals with r == r (not NaN), addresses of live
+                          objects that are not tables (strings by content, functions, closures)
+     hext h h'            heap growth: live cells stay live and keep their kind (strings their content)
+     tables_wf F h        every table of heap h satisfies twf with the heap's own == (veq0 F h) and key domain
+     stack_is c k l       k is a value stack of capacity c whose live part is l (top = last element)           *)
+
+(* 1. The table object, for ANY key equality [eq] that answers on the key domain D and is reflexive there
+      (symmetry and transitivity are not needed: the invariant is about ordered pairs).  Each operation keeps
+      the invariant and acts on [tabs] as the ordered association list does. *)
+Theorem C07_vm_table_object :
+  forall (eq : eqfun) (D : value -> Prop),
+    (forall a b, D a -> D b -> eq a b <> None) ->
+    (forall a, D a -> kb eq a a = true) ->
+    forall t, twf eq D t ->
+      map fst (tabs t) = tkeys t /\ length (tkeys t) = length (tabs t) /\
+      titer eq t = Some (tabs t) /\
+      (forall i, tnth_key t i = nth i (map fst (tabs t)) VNil) /\
+      (forall k, D k -> tget eq t k = Some (al_get eq k (tabs t))) /\
+      (forall k v, D k -> exists t', tinsert eq t k v = Some t' /\ twf eq D t' /\
+                                      tabs t' = al_set eq k v (tabs t)) /\
+      (forall k, D k -> exists t', tremove eq t k = Some t' /\ twf eq D t' /\
+                                    tabs t' = al_remove eq k (tabs t)) /\
+      (exists t', tpop eq t = Some (t', snd (al_pop (tabs t))) /\ twf eq D t' /\
+                  tabs t' = fst (al_pop (tabs t))).
+Proof. exact vm_table_object. Qed.
+Print Assumptions C07_vm_table_object.
+
+(* what al_set does: a present key keeps its place (the key sequence is unchanged), an absent key goes to the
+   end; a read through the written key returns the written value *)
+Theorem C07_vm_set_in_place_or_append :
+  forall (eq : eqfun) k v m,
+    (al_get eq k m <> None -> map fst (al_set eq k v m) = map fst m) /\
+    (al_get eq k m = None -> al_set eq k v m = m ++ [(k, v)]) /\
+    (kb eq k k = true -> al_get eq k (al_set eq k v m) = Some v).
+Proof. exact vm_set_in_place_or_append. Qed.
+Print Assumptions C07_vm_set_in_place_or_append.
+
+(* set-then-get through ANY key of the domain, when the key test is an equivalence there (for the VM's == this
+   is the case on nil, integers, strings by content, functions; for reals it is the symmetry and transitivity
+   of the float instance's comparison, which the generic model does not fix) *)
+Theorem C07_vm_set_then_get :
+  forall (eq : eqfun) (D : value -> Prop),
+    (forall a, D a -> kb eq a a = true) ->
+    (forall a b, D a -> D b -> kb eq a b = true -> kb eq b a = true) ->
+    (forall a b c, D a -> D b -> D c -> kb eq a b = true -> kb eq b c = true -> kb eq a c = true) ->
+    forall m k v k2, Forall D (map fst m) -> D k -> D k2 ->
+      al_get eq k2 (al_set eq k v m) = if kb eq k k2 then Some v else al_get eq k2 m.
+Proof. exact al_get_set_law. Qed.
+Print Assumptions C07_vm_set_then_get.
+
+(* append: never runs out of probes (pigeonhole over the aligned parts) and stores the value at the end under
+   the least integer key >= the number of entries that is not a key of the table *)
+Theorem C07_vm_table_append :
+  forall (eq : eqfun) (D : value -> Prop),
+    (forall a b, D a -> D b -> eq a b <> None) ->
+    (forall i, D (VInt i)) ->
+    (forall a i, D a -> kb eq a (VInt i) = true -> a = VInt i) ->
+    forall t v, twf eq D t ->
+      exists t' j, tappend eq t v = TOk t' /\ twf eq D t' /\ tabs t' = tabs t ++ [(VInt j, v)] /\
+        (Z.of_nat (length (tabs t)) <= j)%Z /\ al_get eq (VInt j) (tabs t) = None /\
+        forall x, (Z.of_nat (length (tabs t)) <= x < j)%Z -> al_get eq (VInt x) (tabs t) <> None.
+Proof. exact vm_table_append. Qed.
+Print Assumptions C07_vm_table_append.
+
+(* 2. The VM's == (veq0 F h, any float instance F) on the key domain vkey F h satisfies these hypotheses, and
+      neither == on keys of the domain nor the invariant of a table changes when the heap grows. *)
+Theorem C07_vm_key_equality :
+  forall (F : fops) (h : heap),
+    (forall a b, vkey F h a -> vkey F h b -> veq0 F h a b <> None) /\
+    (forall a, vkey F h a -> kb (veq0 F h) a a = true) /\
+    (forall i, vkey F h (VInt i)) /\
+    (forall a i, vkey F h a -> kb (veq0 F h) a (VInt i) = true -> a = VInt i) /\
+    (forall h' a b, hext h h' -> vkey F h a -> vkey F h b ->
+                    vkey F h' a /\ veq0 F h' a b = veq0 F h a b) /\
+    (forall h' t, hext h h' -> twf (veq0 F h) (vkey F h) t -> twf (veq0 F h') (vkey F h') t).
+Proof. exact vm_key_equality. Qed.
+Print Assumptions C07_vm_key_equality.
+
+(* 3. The table instructions.  The result state is the old state with heap cell [a] replaced (set_table) and the
+      value stack replaced by one whose live part is given (set_stack): frames, globals, upvalue list, log,
+      counters and every other heap cell are unchanged by construction.  A non-table operand is the error value
+      InvalidArgument: C04VmProofs.get_property_wrong_type, set_property_wrong_type, append_table_wrong_type,
+      pop_table_wrong_type (property C04). *)
+Section C07_instructions.
+Variables (F : fops) (bld : build) (P : program) (reenter : N -> state -> rres).
+Notation veq := (veq0 F).
+Notation dom := (vkey F).
+Notation STEP := (step F bld P reenter).
+
+Theorem C07_vm_init_table : forall ip0 s,
+  opcode_at P ip0 = 31%N -> stack_ok s -> S (length (stack_of s)) < cap s ->
+  exists k,
+    STEP ip0 s = SNext (ip0 + 1) (set_stack (set_heap s (st_heap s ++ [OTable (mkTable [] [])])) k) /\
+    stack_is (cap s) k (stack_of s ++ [VObj (N.of_nat (length (st_heap s)))]).
+Proof. exact (step_init_table F bld P reenter). Qed.
+
+Theorem C07_vm_get_property : forall ip0 s l a key t,
+  opcode_at P ip0 = 32%N -> stack_ok s -> stack_of s = l ++ [VObj a; key] ->
+  hget (st_heap s) a = Some (OTable t) ->
+  twf (veq (st_heap s)) (dom (st_heap s)) t -> dom (st_heap s) key ->
+  exists k,
+    STEP ip0 s = SNext (ip0 + 1) (set_stack s k) /\
+    stack_is (cap s) k (l ++ [match al_get (veq (st_heap s)) key (tabs t) with Some v => v | None => VNil end]).
+Proof. exact (step_get_property F bld P reenter). Qed.
+
+Theorem C07_vm_set_property : forall ip0 s l a key v t,
+  opcode_at P ip0 = 33%N -> stack_ok s -> stack_of s = l ++ [v; VObj a; key] ->
+  hget (st_heap s) a = Some (OTable t) ->
+  twf (veq (st_heap s)) (dom (st_heap s)) t -> dom (st_heap s) key ->
+  exists t' k,
+    STEP ip0 s = SNext (ip0 + 1) (set_stack (set_table s a t') k) /\
+    stack_is (cap s) k l /\
+    twf (veq (st_heap s)) (dom (st_heap s)) t' /\ tabs t' = al_set (veq (st_heap s)) key v (tabs t).
+Proof. exact (step_set_property F bld P reenter). Qed.
+
+Theorem C07_vm_len : forall ip0 s l a t,
+  opcode_at P ip0 = 34%N -> stack_ok s -> stack_of s = l ++ [VObj a] ->
+  hget (st_heap s) a = Some (OTable t) -> twf (veq (st_heap s)) (dom (st_heap s)) t ->
+  exists k,
+    STEP ip0 s = SNext (ip0 + 1) (set_stack s k) /\
+    stack_is (cap s) k (l ++ [VInt (Z.of_nat (length (tabs t)))]).
+Proof. exact (step_len F bld P reenter). Qed.
+
+Theorem C07_vm_append_table : forall ip0 s l a v t,
+  opcode_at P ip0 = 40%N -> stack_ok s -> stack_of s = l ++ [v; VObj a] ->
+  hget (st_heap s) a = Some (OTable t) -> twf (veq (st_heap s)) (dom (st_heap s)) t ->
+  exists t' j k,
+    STEP ip0 s = SNext (ip0 + 1) (set_stack (set_table s a t') k) /\
+    stack_is (cap s) k l /\
+    twf (veq (st_heap s)) (dom (st_heap s)) t' /\
+    al_append_key (veq (st_heap s)) (tabs t) j /\ tabs t' = tabs t ++ [(VInt j, v)].
+Proof. exact (step_append_table F bld P reenter). Qed.
+
+Theorem C07_vm_pop_table : forall ip0 s l a t,
+  opcode_at P ip0 = 41%N -> stack_ok s -> stack_of s = l ++ [VObj a] ->
+  hget (st_heap s) a = Some (OTable t) -> twf (veq (st_heap s)) (dom (st_heap s)) t ->
+  exists t' k,
+    STEP ip0 s = SNext (ip0 + 1) (set_stack (set_table s a t') k) /\
+    stack_is (cap s) k (l ++ [snd (al_pop (tabs t))]) /\
+    twf (veq (st_heap s)) (dom (st_heap s)) t' /\ tabs t' = fst (al_pop (tabs t)).
+Proof. exact (step_pop_table F bld P reenter). Qed.
+
+(* NthRow: the row object {"key": k, "value": v} of the i-th entry in order, (nil, nil) beyond the end; three
+   fresh cells (the row table and its two key strings) are appended to the heap *)
+Theorem C07_vm_nth_row : forall ip0 s l a i t,
+  opcode_at P ip0 = 39%N -> stack_ok s -> stack_of s = l ++ [VObj a; VInt i] -> (0 <= i)%Z ->
+  hget (st_heap s) a = Some (OTable t) -> twf (veq (st_heap s)) (dom (st_heap s)) t ->
+  let e := nth (Z.to_nat i) (tabs t) (VNil, VNil) in
+  exists k,
+    STEP ip0 s = SNext (ip0 + 1)
+                   (set_stack (set_heap s (st_heap s ++ row_cells (length (st_heap s)) (fst e) (snd e))) k) /\
+    stack_is (cap s) k (l ++ [VObj (N.of_nat (length (st_heap s)))]).
+Proof. exact (step_nth_row F bld P reenter). Qed.
+
+(* ForEach: round i of the loop reads the i-th entry in order and commits (value, key, i, i+1) to the loop's
+   locals, pushing `true`; at i >= len it pushes `false`.  A loop over a table that is not modified meanwhile
+   therefore visits the entries of [tabs] exactly once each, in order. *)
+Theorem C07_vm_for_each : forall ip0 s lv t_h i_h k_h v_h off i a t,
+  opcode_at P ip0 = 36%N ->
+  op_u32 P (ip0 + 1) = Some lv -> op_u32 P (ip0 + 1 + 4) = Some t_h -> op_u32 P (ip0 + 1 + 8) = Some i_h ->
+  op_u32 P (ip0 + 1 + 12) = Some k_h -> op_u32 P (ip0 + 1 + 16) = Some v_h ->
+  top_offset s = Some off ->
+  to_i64 F (st_heap s) (sget s (off + N.to_nat lv)) = Some i -> (0 <= i)%Z ->
+  sget s (off + N.to_nat t_h) = VObj a ->
+  hget (st_heap s) a = Some (OTable t) -> twf (veq (st_heap s)) (dom (st_heap s)) t ->
+  let e := nth (Z.to_nat i) (tabs t) (VNil, VNil) in
+  STEP ip0 s = if (i <? Z.of_nat (length (tabs t)))%Z
+               then foreach_commit (ip0 + 1 + 20) s off lv i_h k_h v_h i (fst e) (snd e)
+               else push_next (ip0 + 1 + 20) s (vbool false).
+Proof. exact (step_for_each F bld P reenter). Qed.
+
+(* Reference sharing.  SetProperty through one copy of the reference [VObj a] (key [key], value [v]); then any
+   instructions that leave the heap alone (the reference copied through locals, globals, upvalues, the stack):
+   s2 is any state with the heap SetProperty left.  GetProperty through [VObj a] with that key returns v;
+   GetProperty through another address b returns exactly what it returned before the write. *)
+Theorem C07_vm_reference_sharing : forall ip0 s l a key v t s1,
+  opcode_at P ip0 = 33%N -> stack_ok s -> stack_of s = l ++ [v; VObj a; key] ->
+  hget (st_heap s) a = Some (OTable t) ->
+  twf (veq (st_heap s)) (dom (st_heap s)) t -> dom (st_heap s) key ->
+  STEP ip0 s = SNext (ip0 + 1) s1 ->
+  forall ip2 s2 l2, opcode_at P ip2 = 32%N -> stack_ok s2 -> st_heap s2 = st_heap s1 ->
+    (stack_of s2 = l2 ++ [VObj a; key] ->
+     exists k, STEP ip2 s2 = SNext (ip2 + 1) (set_stack s2 k) /\ stack_is (cap s2) k (l2 ++ [v])) /\
+    (forall b u key', b <> a -> hget (st_heap s) b = Some (OTable u) ->
+       twf (veq (st_heap s)) (dom (st_heap s)) u -> dom (st_heap s) key' ->
+       stack_of s2 = l2 ++ [VObj b; key'] ->
+       exists k, STEP ip2 s2 = SNext (ip2 + 1) (set_stack s2 k) /\
+                 stack_is (cap s2) k
+                   (l2 ++ [match al_get (veq (st_heap s)) key' (tabs u) with Some x => x | None => VNil end])).
+Proof. exact (vm_reference_sharing F bld P reenter). Qed.
+
+(* 4. Every instruction - all 47 opcodes, the host menu natives and the stdlib natives min / max / sort /
+      to_array included - keeps the invariant of every table of the heap, whatever the outcome (next state,
+      exit, error value, abort), and live cells stay live and keep their kind.  Hypotheses: (a) the key of a
+      SetProperty lies in the key domain (a NaN key, a table used as a key or a dangling address would break
+      the alignment of the two parts / the distinctness of the keys); (b) the nested runs that natives start
+      ([reenter]) keep the invariant - the same statement one nesting level down. *)
+Theorem C07_vm_tables_wf_preserved :
+  (forall ip x, tables_wf F (st_heap x) ->
+     hext (st_heap x) (st_heap (rres_state (reenter ip x))) /\ tables_wf F (st_heap (rres_state (reenter ip x)))) ->
+  forall ip0 s,
+    tables_wf F (st_heap s) ->
+    (opcode_at P ip0 = 33%N -> dom (st_heap s) (speek s 0)) ->
+    hext (st_heap s) (st_heap (sres_state (STEP ip0 s))) /\ tables_wf F (st_heap (sres_state (STEP ip0 s))).
+Proof. exact (step_tables_wf F bld P reenter). Qed.
+
+End C07_instructions.
+Print Assumptions C07_vm_init_table.
+Print Assumptions C07_vm_get_property.
+Print Assumptions C07_vm_set_property.
+Print Assumptions C07_vm_len.
+Print Assumptions C07_vm_append_table.
+Print Assumptions C07_vm_pop_table.
+Print Assumptions C07_vm_nth_row.
+Print Assumptions C07_vm_for_each.
+Print Assumptions C07_vm_reference_sharing.
+Print Assumptions C07_vm_tables_wf_preserved.
+
+(* the empty heap of a fresh VM satisfies the invariant *)
+Theorem C07_vm_tables_wf_initial : forall F, tables_wf F (st_heap fresh_state).
+Proof. exact vm_tables_wf_initial. Qed.
+Print Assumptions C07_vm_tables_wf_initial.
+
+(* ---- examples (vm_compute) ---- *)
+Definition C07_F0 : fops :=
+  mkFops (fun _ _ => 0%N) (fun _ _ => 0%N) (fun _ _ => 0%N) (fun _ _ => 0%N)
+         (fun x y => if N.eqb x y then Some Eq else Some Lt) (fun _ => 0%N) (fun _ => 0%Z).
+(* two string objects with the text "a" and one with "b" *)
+Definition C07_h0 : heap := [OStr [97%N]; OStr [97%N]; OStr [98%N]].
+
+(* set "a" := 1; append 2 (key 1); set 2 := 3; append 4 (key 3); set "a" := 9 through ANOTHER string object
+   with the same text (replaced in place); pop (returns 4, removes key 3); append 5 (key 3 again);
+   then iterate, read "b" (absent -> None) and read key 3 *)
+Example C07_vm_nonvacuous_table :
+  let eq := veq0 C07_F0 C07_h0 in
+  match tinsert eq (mkTable [] []) (VObj 0%N) (VInt 1) with
+  | Some t1 =>
+    match tappend eq t1 (VInt 2) with
+    | TOk t2 =>
+      match tinsert eq t2 (VInt 2) (VInt 3) with
+      | Some t3 =>
+        match tappend eq t3 (VInt 4) with
+        | TOk t4 =>
+          match tinsert eq t4 (VObj 1%N) (VInt 9) with
+          | Some t5 =>
+            match tpop eq t5 with
+            | Some (t6, popped) =>
+              match tappend eq t6 (VInt 5) with
+              | TOk t7 => Some (popped, titer eq t7, tget eq t7 (VObj 2%N), tget eq t7 (VInt 3), tkeys t7)
+              | _ => None
+              end
+            | None => None
+            end
+          | None => None
+          end
+        | _ => None
+        end
+      | None => None
+      end
+    | _ => None
+    end
+  | None => None
+  end
+  = Some (VInt 4,
+          Some [(VObj 0%N, VInt 9); (VInt 1, VInt 2); (VInt 2, VInt 3); (VInt 3, VInt 5)],
+          Some None, Some (Some (VInt 5)),
+          [VObj 0%N; VInt 1; VInt 2; VInt 3]).
+Proof. vm_compute. reflexivity. Qed.
+
+(* SetProperty through one copy of a table reference, GetProperty through another copy (a global would do the
+   same: both are the value VObj 1): code = [SetProperty; GetProperty], heap = ["k", {}] *)
+Definition C07_prog : program := mkProgram [33%N; 32%N] [] [] [] [] [].
+Definition C07_push (l : list value) (s : state) : state :=
+  fold_left (fun x v => match spush x v with Some y => y | None => x end) l s.
+Definition C07_s0 : state :=
+  C07_push [VInt 7; VObj 1%N; VObj 0%N] (set_heap fresh_state [OStr [107%N]; OTable (mkTable [] [])]).
+Example C07_vm_nonvacuous_sharing :
+  match step C07_F0 Debug C07_prog no_reenter 0 C07_s0 with
+  | SNext ip1 s1 =>
+      match step C07_F0 Debug C07_prog no_reenter ip1 (C07_push [VObj 1%N; VObj 0%N] s1) with
+      | SNext ip2 s2 => Some (ip1, hget (st_heap s1) 1%N, stack_of s1, ip2, stack_of s2)
+      | _ => None
+      end
+  | _ => None
+  end
+  = Some (1%N, Some (OTable (mkTable [(VObj 0%N, VInt 7)] [VObj 0%N])), [], 2%N, [VInt 7]).
+Proof. vm_compute. reflexivity. Qed.
+
+Example C07_vm_nonvacuous_wf :
+  twf (veq0 C07_F0 C07_h0) (vkey C07_F0 C07_h0) (mkTable [(VObj 0%N, VInt 9); (VInt 1, VInt 2)] [VObj 0%N; VInt 1]).
+Proof.
+  split; [reflexivity|]. split.
+  - repeat constructor.
+  - cbn [kdistinct]. repeat constructor.
+Qed.
